@@ -390,6 +390,20 @@ def dating_case(draw, tier, methods=METHODS, want=None, set_metadata=(None, True
         kw["population_size"], kw["mutation_rate"] = discrete_scales(draw, ts)
     kw["return_fit"] = True
     via = draw(st.sampled_from(["date", "named"]))
+    if draw(st.integers(0, 3)) == 0:
+        # node flags other than the sample bit are user data (tsinfer marks historical samples with
+        # 1<<20, tsdate's own preprocessing with 1<<21): set some on samples and non-samples alike
+        picks = draw(st.lists(st.integers(0, 10 ** 6), min_size=1, max_size=6))
+        bits = draw(st.sampled_from([1 << 20, 1 << 21, (1 << 20) | (1 << 3), 1 << 31]))
+        t = ts.dump_tables()
+        fl = t.nodes.flags.copy()
+        for q in picks:
+            fl[q % len(fl)] |= np.uint32(bits)
+        if draw(st.booleans()):  # ... and on every sample
+            fl[ts.samples()] |= np.uint32(bits)
+        t.nodes.flags = fl
+        ts = t.tree_sequence()
+        cls = list(cls) + ["extra_flag_bits"]
     return dict(ts=ts, method=method, via=via, kw=kw, cls=cls)
 
 
